@@ -256,7 +256,9 @@ def judge(case, ibc, answers):
             exp = ans.res(lambda: (ans.Z(), ans.nested()))
             got = r['micro']
             if exp[0] == 'err':
-                if got.get('err') != exp[1]:
+                # multi-column files must be REJECTED; the property does not fix the error kind (pandas may
+                # already refuse the int16 conversion of wide values with ValueError before the column check)
+                if 'err' not in got or (exp[1] != 'FileError' and got.get('err') != exp[1]):
                     P('impl-vs-spec', 'openmicrostates: expected %s, got %s' % (exp[1], C.short(got, 80)))
             elif 'err' in got:
                 P('impl-vs-spec', 'openmicrostates raised %s (%s)' % (got['err'], got.get('msg')))
